@@ -464,11 +464,13 @@ def _nested_run_resolves_default(
     state: GraphState,
     provided_values: dict[str, Any],
 ) -> bool:
-    """True when a GraphNode input falls back to an inner signature default.
+    """True when a GraphNode input is resolved by the nested run itself.
 
-    The nested run resolves that default itself, with a fresh copy per run, so
-    the items of a mapped GraphNode never share one copy of a mutable default.
-    Parameters that are mapped over are still passed (the map needs the value).
+    That is the case for an inner signature default (resolved with a fresh copy
+    per run, so the items of a mapped GraphNode never share one copy of a
+    mutable default) and for a value bound on the nested graph (shared by
+    reference, never cloned). Parameters that are mapped over are still passed
+    (the map needs the value).
     """
     if node.nested_graph is None:
         return False
@@ -476,7 +478,14 @@ def _nested_run_resolves_default(
     if map_config and param in map_config[0]:
         return False
     source, _ = get_value_source(param, node, graph, state, provided_values)
-    return source == ValueSource.DEFAULT
+    if source == ValueSource.DEFAULT:
+        return True
+    if source == ValueSource.BOUND and param not in graph._bound:
+        # Bound on the nested graph itself (the enclosing graph merely lists it):
+        # the nested run resolves it, by reference, so it is never a broadcast
+        # value of a mapped node and never goes through clone.
+        return node._resolve_original_input_name(param) in node.nested_graph.inputs.bound
+    return False
 
 
 def _resolve_input(
